@@ -17,6 +17,9 @@ import (
 	"testing"
 	"time"
 
+	"github.com/kercylan98/vivid"
+	"github.com/kercylan98/vivid/internal/mailbox"
+	"github.com/kercylan98/vivid/internal/remoting/serialize"
 	"github.com/kercylan98/vivid/verif/internal/rlab"
 	"github.com/kercylan98/vivid/verif/internal/vstat"
 	"github.com/kercylan98/vivid/verif/internal/vt"
@@ -49,7 +52,7 @@ var overhead = -1
 func frameLen(n int) int { return overhead + n }
 
 func genCase(t *rapid.T) Case {
-	c := Case{Kind: rapid.SampledFrom([]string{"cut", "cut", "cut", "cut", "refuse", "refuse", "restart", "inject-body", "inject-body", "inject-length"}).Draw(t, "kind")}
+	c := Case{Kind: rapid.SampledFrom([]string{"cut", "cut", "cut", "cut", "refuse", "refuse", "restart", "inject-body", "inject-body", "inject-badref", "inject-badref", "inject-length"}).Draw(t, "kind")}
 	c.Frames = rapid.IntRange(3, 6).Draw(t, "frames")
 	for i := 0; i < c.Frames; i++ {
 		c.Sizes = append(c.Sizes, rapid.SampledFrom([]int{0, 1, 10, 100, 1000}).Draw(t, "size"))
@@ -81,10 +84,57 @@ func genCase(t *rapid.T) Case {
 	case "inject-body":
 		c.Garbage = rapid.SampledFrom([]int{1, 3, 17, 200, 5000}).Draw(t, "garbage")
 		c.At = rapid.IntRange(0, c.Frames-1).Draw(t, "at")
+	case "inject-badref":
+		c.Garbage = rapid.IntRange(0, len(badRefs)-1).Draw(t, "variant")
+		c.At = rapid.IntRange(0, c.Frames-1).Draw(t, "at")
 	case "inject-length":
 		c.At = rapid.IntRange(0, c.Frames-1).Draw(t, "at")
 	}
 	return c
+}
+
+// freeRef puts arbitrary addressing on the wire.
+type freeRef struct{ addr, path string }
+
+func (r freeRef) GetAddress() string       { return r.addr }
+func (r freeRef) GetPath() vivid.ActorPath { return r.path }
+func (r freeRef) Equals(o vivid.ActorRef) bool {
+	return o != nil && o.GetAddress() == r.addr && o.GetPath() == r.path
+}
+func (r freeRef) Clone() vivid.ActorRef        { return r }
+func (r freeRef) ToActorRefs() vivid.ActorRefs { return vivid.ActorRefs{r} }
+func (r freeRef) String() string               { return r.addr + r.path }
+
+// badRefs: frames that are well-formed and decode, but whose envelope cannot be routed. "" = keep the real value.
+var badRefs = []struct{ name, sAddr, sPath, rAddr, rPath string }{
+	{"empty sender address", "<empty>", "", "", ""},
+	{"sender address is not host:port", "::bad::", "", "", ""},
+	{"sender path without a leading slash", "", "user/sender", "", ""},
+	{"receiver path with blanks", "", "", "", "/no such actor"},
+	{"receiver path of no actor", "", "", "", "/nobody-here"},
+	{"receiver address is not host:port", "", "", "::bad::", ""},
+}
+
+func badRefFrame(variant int, from, to vivid.ActorRef) ([]byte, error) {
+	b := badRefs[variant]
+	pick := func(v, real string) string {
+		switch v {
+		case "":
+			return real
+		case "<empty>":
+			return ""
+		}
+		return v
+	}
+	sr := freeRef{pick(b.sAddr, from.GetAddress()), pick(b.sPath, from.GetPath())}
+	rr := freeRef{pick(b.rAddr, to.GetAddress()), pick(b.rPath, to.GetPath())}
+	body, err := serialize.EncodeEnvelopWithRemoting(nil, mailbox.NewEnvelop(false, sr, rr, &rlab.Msg{Sender: 4242, Seq: 1, Kind: rlab.KData, Body: []byte("unroutable")}))
+	if err != nil {
+		return nil, err
+	}
+	frame := make([]byte, 4, 4+len(body))
+	binary.BigEndian.PutUint32(frame, uint32(len(body)))
+	return append(frame, body...), nil
 }
 
 func measureOverhead() error {
@@ -220,6 +270,8 @@ func run(c Case) (v *verdict, inconclusive string, nontrivial bool, labels []str
 		g := make([]byte, 4)
 		binary.BigEndian.PutUint32(g, 4<<20+1)
 		plans = []rlab.ConnPlan{{Mode: "exact", CutAfter: -1, Inject: g, InjectAt: c.At}, {Mode: "exact", CutAfter: -1}}
+	case "inject-badref":
+		plans = []rlab.ConnPlan{{Mode: "exact", CutAfter: -1}} // replaced below, once the refs exist
 	default:
 		plans = []rlab.ConnPlan{{Mode: "exact", CutAfter: -1}}
 	}
@@ -229,6 +281,14 @@ func run(c Case) (v *verdict, inconclusive string, nontrivial bool, labels []str
 	}
 	defer l.close()
 	target := l.B.RemoteSink(l.A.Sys)
+	if c.Kind == "inject-badref" {
+		g, err := badRefFrame(c.Garbage, l.A.Sys.Ref(), target)
+		if err != nil {
+			return nil, "cannot build the unroutable frame: " + err.Error(), false, nil
+		}
+		l.proxy.SetPlans(rlab.ConnPlan{Mode: "exact", CutAfter: -1, Inject: g, InjectAt: c.At})
+		labels = append(labels, "badref:"+badRefs[c.Garbage].name)
+	}
 	send := func(size int) int64 {
 		s := seq
 		seq++
@@ -242,7 +302,7 @@ func run(c Case) (v *verdict, inconclusive string, nontrivial bool, labels []str
 		return ok, deadLettered(l.A, s)
 	}
 	switch c.Kind {
-	case "cut", "inject-body", "inject-length":
+	case "cut", "inject-body", "inject-badref", "inject-length":
 		var first []int64
 		for _, sz := range c.Sizes {
 			first = append(first, send(sz))
@@ -259,6 +319,15 @@ func run(c Case) (v *verdict, inconclusive string, nontrivial bool, labels []str
 			}
 		} else {
 			nontrivial = true
+		}
+		if c.Kind == "inject-badref" {
+			// a well-framed envelope that cannot be routed: every real frame on the same connection is delivered
+			for i, s := range first {
+				if !rlab.WaitUntil(3*time.Second, func() bool { return delivered(l.B, s) }) {
+					ev := l.B.Events.Snapshot()
+					return &verdict{"C14/unroutable-frame|later-frames", fmt.Sprintf("a well-formed frame whose envelope cannot be routed (%s) was injected before frame %d; real frame %d was not delivered afterwards (receiver: %d decode failures, %d closed); case %s", badRefs[c.Garbage].name, c.At, i, ev.DecodeFail, ev.ConnClosed, c.JSON())}, "", nontrivial, labels
+				}
+			}
 		}
 		if c.Kind == "inject-body" {
 			// an undecodable but well-framed body: every real frame on the same connection is delivered
@@ -383,6 +452,7 @@ func check(fatalf func(string, ...any), c Case) {
 		if vstat.Fail(v.sig, v.detail, c) {
 			return
 		}
+		vstat.FailFast(v.sig, v.detail)
 		fatalf("VERIF-FAIL sig=%s :: %s", v.sig, v.detail)
 	}
 }
